@@ -37,6 +37,9 @@ type Violation struct {
 	Region  string            `json:"region,omitempty"`
 	Stack   string            `json:"stack,omitempty"`
 	Replayed string           `json:"replayed,omitempty"`
+	// Stress > 0: found on a path whose schedule is not the run-to-completion one; the native
+	// replay cannot steer the scheduler and repeats the harness up to Stress times instead.
+	Stress int `json:"stress,omitempty"`
 }
 
 type CoverWitness struct {
@@ -206,6 +209,9 @@ func (ex *Exec) runPath(r *Runner, h *Harness, prefix []decision) {
 	ex.onceDone = map[*Cell]bool{}
 	ex.pools = map[*Cell][]Value{}
 	ex.abstracted = false
+	ex.opGors = nil
+	ex.preemptions = 0
+	ex.muState = map[*Cell]*muSt{}
 	ex.condWaiters = map[*Cell][]*gor{}
 	ex.newScheduler()
 	q0, t0 := ex.solver.Queries, ex.solver.Time
@@ -753,7 +759,7 @@ func (ex *Exec) assertCheckP(r *Runner, h *Harness, tag string, cond *Term, pref
 					found = true
 					m2 = ex.realize(tt.BAnd(neg, rg.cond), m2)
 					in, order := ex.modelInputs(m2)
-					v := &Violation{Harness: h.Name, Tag: tag, Kind: "assert", Inputs: in, Order: order, Region: rg.slug}
+					v := &Violation{Harness: h.Name, Tag: tag, Kind: "assert", Inputs: in, Order: order, Region: rg.slug, Stress: ex.stressRounds()}
 					h.mu.Lock()
 					h.Known = append(h.Known, v)
 					h.mu.Unlock()
@@ -772,7 +778,7 @@ func (ex *Exec) assertCheckP(r *Runner, h *Harness, tag string, cond *Term, pref
 	case Sat:
 		m = ex.realize(outside, m)
 		in, order := ex.modelInputs(m)
-		v := &Violation{Harness: h.Name, Tag: tag, Kind: "assert", Inputs: in, Order: order, Stack: ex.stackString()}
+		v := &Violation{Harness: h.Name, Tag: tag, Kind: "assert", Inputs: in, Order: order, Stack: ex.stackString(), Stress: ex.stressRounds()}
 		h.mu.Lock()
 		h.Violations = append(h.Violations, v)
 		if len(h.Violations) >= 8 {
